@@ -124,3 +124,109 @@ func ZZC04Cross() {
 		{fu, nd.LineOf(src, "U-MVALUE"), "PKGO03", badM},
 	}, "C04 importing package")
 }
+
+const c04SrcD2 = `package d
+
+//«annT»
+type T struct{}
+
+//«annR»
+type R struct{}
+
+//«annTM»
+func (t *T) M() {}
+
+//«annRM»
+func (r *R) M() {}
+
+//«annFM»
+func M() {}
+
+func Inside(t *T, r *R) {
+	t.M()
+	r.M()
+	M()
+}
+`
+
+const c04SrcU1 = `package u
+
+import "zzmod/d"
+
+var Tv d.T // U1-TV
+
+var Rv d.R // U1-RV
+`
+
+// a file of the user package without any import declaration: it reaches the restricted methods through variables of u1.go
+const c04SrcU3 = `package u
+
+func Third() {
+	Tv.M() // U3-TM
+	Rv.M() // U3-RM
+	f := Tv.M // U3-TMV
+	_ = f
+}
+`
+
+// a user package that shares the declaring package's NAME (d) but not its path
+const c04SrcW = `package d
+
+import dd "zzmod/d"
+
+func Use(
+	t *dd.T, // W-PT
+	r *dd.R, // W-PR
+) {
+	t.M() // W-TM
+	r.M() // W-RM
+	dd.M() // W-FM
+	g := (*dd.T).M // W-MEXPR
+	_ = g
+}
+`
+
+// ZZC04Names: two types of d with a method of the SAME name (plus a function of that name), each with its own allow-list;
+// a user package that shares d's package name under another path; a user file without imports.
+func ZZC04Names() {
+	annT := nd.EnumPad("annT", " @packageonly", " @packageonly d", " @packageonly zzmod/x/d", " @packageonly u", " plain")
+	annR := nd.EnumPad("annR", " @packageonly u", " @packageonly d, u", " plain")
+	annTM := nd.EnumPad("annTM", " @packageonly", " @packageonly u", " @packageonly u, d", " plain")
+	annRM := nd.EnumPad("annRM", " @packageonly", " @packageonly u", " @packageonly zzmod/x/d", " plain")
+	annFM := nd.EnumPad("annFM", " @packageonly", " @packageonly u", " @packageonly d", " plain")
+	holes := []nd.Hole{{"annT", annT}, {"annR", annR}, {"annTM", annTM}, {"annRM", annRM}, {"annFM", annFM}}
+	files := []nd.File{{Pkg: "zzmod/d", Name: "d.go", Src: c04SrcD2}, {Pkg: "zzmod/u", Name: "u1.go", Src: c04SrcU1}, {Pkg: "zzmod/u", Name: "u3.go", Src: c04SrcU3}, {Pkg: "zzmod/x/d", Name: "w.go", Src: c04SrcW}}
+	prog := nd.LoadProgram(files, holes)
+	cfg := config.Default()
+	rd := Analyze(prog, cfg, "zzmod/d", Facts{}, "pkgo")
+	ru := Analyze(prog, cfg, "zzmod/u", Facts{"zzmod/d": &rd.Ann}, "pkgo")
+	rw := Analyze(prog, cfg, "zzmod/x/d", Facts{"zzmod/d": &rd.Ann}, "pkgo")
+	CheckExact(rd.Diags, []Expect{}, "C04 declaring package")
+
+	on := func(a string) bool { return nd.HasPrefix(a, " @packageonly") }
+	uT := nd.HasPrefix(annT, " @packageonly u")
+	wT := nd.Or(nd.HasPrefix(annT, " @packageonly d"), nd.HasPrefix(annT, " @packageonly zzmod/x/d"))
+	uR := nd.Or(nd.HasPrefix(annR, " @packageonly u"), nd.HasPrefix(annR, " @packageonly d, u"))
+	wR := nd.HasPrefix(annR, " @packageonly d, u")
+	uTM := nd.HasPrefix(annTM, " @packageonly u")
+	wTM := nd.HasPrefix(annTM, " @packageonly u, d")
+	uRM := nd.HasPrefix(annRM, " @packageonly u")
+	wRM := nd.HasPrefix(annRM, " @packageonly zzmod/x/d")
+	wFM := nd.HasPrefix(annFM, " @packageonly d")
+	f1, f3, fw := "/zz/zzmod/u/u1.go", "/zz/zzmod/u/u3.go", "/zz/zzmod/x/d/w.go"
+	CheckExact(ru.Diags, []Expect{
+		{f1, nd.LineOf(c04SrcU1, "U1-TV"), "PKGO01", nd.And(on(annT), nd.Not(uT))},
+		{f1, nd.LineOf(c04SrcU1, "U1-RV"), "PKGO01", nd.And(on(annR), nd.Not(uR))},
+		{f3, nd.LineOf(c04SrcU3, "U3-TM"), "PKGO03", nd.And(on(annTM), nd.Not(uTM))},
+		{f3, nd.LineOf(c04SrcU3, "U3-RM"), "PKGO03", nd.And(on(annRM), nd.Not(uRM))},
+		{f3, nd.LineOf(c04SrcU3, "U3-TMV"), "PKGO03", nd.And(on(annTM), nd.Not(uTM))},
+	}, "C04 same-named methods, file without imports")
+	CheckExact(rw.Diags, []Expect{
+		{fw, nd.LineOf(c04SrcW, "W-PT"), "PKGO01", nd.And(on(annT), nd.Not(wT))},
+		{fw, nd.LineOf(c04SrcW, "W-PR"), "PKGO01", nd.And(on(annR), nd.Not(wR))},
+		{fw, nd.LineOf(c04SrcW, "W-TM"), "PKGO03", nd.And(on(annTM), nd.Not(wTM))},
+		{fw, nd.LineOf(c04SrcW, "W-RM"), "PKGO03", nd.And(on(annRM), nd.Not(wRM))},
+		{fw, nd.LineOf(c04SrcW, "W-FM"), "PKGO02", nd.And(on(annFM), nd.Not(wFM))},
+		{fw, nd.LineOf(c04SrcW, "W-MEXPR"), "PKGO03", nd.And(on(annTM), nd.Not(wTM))},
+	}, "C04 user package sharing the declaring package's name")
+}
